@@ -726,9 +726,9 @@ Proof.
   destruct Hr; [left; apply Z.ltb_lt|right; apply Z.ltb_lt]; assumption.
 Qed.
 
-Lemma eval_binop_ok : forall fp op x y, ok true (eval_binop fp op x y).
+Lemma eval_binop_ok : forall fp op x y, frac_pow_well_behaved fp -> ok true (eval_binop fp op x y).
 Proof.
-  intros fp op x y. destruct op; simpl; unfold textual_binary, numerical_binary, cmp_is;
+  intros fp op x y Hfp. destruct op; simpl; unfold textual_binary, numerical_binary, cmp_is;
     try (destruct (to_text x); [|exact I]; destruct (to_text y); exact I);
     (destruct (to_number x) as [n1|]; [|exact I]; destruct (to_number y) as [n2|]; [|exact I]); try exact I.
   - apply ok_weaken. apply mul_body_ok.
@@ -737,21 +737,33 @@ Proof.
     + apply dec_quorem_class in Eq. destruct Eq as [[Hc Hz]|Hc]; subst c; [|reflexivity].
       apply dec_eqb_zero in Hz. congruence.
     + destruct (dec_cmp _ _); exact I.
-  - apply ok_weaken. apply pow_body_ok.
+  - apply pow_body_ok. assumption.
 Qed.
 
-(* every operator except / is free of panics of any class: Multiply and Exponent check the exponent themselves *)
-Lemma eval_binop_no_panic : forall fp op x y, op <> ODiv -> ok false (eval_binop fp op x y).
+(* every operator except / and ^ is free of panics of any class: Multiply checks the exponent itself *)
+Lemma eval_binop_no_panic : forall fp op x y, op <> ODiv -> op <> OPow -> ok false (eval_binop fp op x y).
 Proof.
-  intros fp op x y H2. destruct op; try contradiction; simpl; unfold textual_binary, numerical_binary, cmp_is;
+  intros fp op x y H2 H3. destruct op; try contradiction; simpl; unfold textual_binary, numerical_binary, cmp_is;
     try (destruct (to_text x); [|exact I]; destruct (to_text y); exact I);
     (destruct (to_number x) as [n1|]; [|exact I]; destruct (to_number y) as [n2|]; [|exact I]); try exact I.
-  - apply mul_body_ok.
-  - apply pow_body_ok.
+  apply mul_body_ok.
 Qed.
 
-Lemma binop_no_panic_statement : forall fp op x y c, op <> ODiv -> eval_binop fp op x y <> Panic c.
-Proof. intros fp op x y c H. apply ok_false_iff. apply eval_binop_no_panic. assumption. Qed.
+Lemma binop_no_panic_statement : forall fp op x y c, op <> ODiv -> op <> OPow -> eval_binop fp op x y <> Panic c.
+Proof. intros fp op x y c H H'. apply ok_false_iff. apply eval_binop_no_panic; assumption. Qed.
+
+(* ^ with a power that is a whole number: no panic of any class *)
+Lemma power_integral_no_panic : forall fp x y n2 c, to_number y = Ok n2 -> dec_is_integer (dec_canonical n2) = true ->
+  eval_binop fp OPow x y <> Panic c.
+Proof.
+  intros fp x y n2 c H2 Hi. apply ok_false_iff. simpl. unfold numerical_binary.
+  destruct (to_number x) as [n1|]; [|exact I]. rewrite H2. apply pow_body_integral_ok. assumption.
+Qed.
+
+(* ^ with any power: only what the (unmodelled) series part may do *)
+Lemma power_exponent_only : forall fp x y c, frac_pow_well_behaved fp ->
+  eval_binop fp OPow x y = Panic c -> c = PExponent.
+Proof. intros fp x y c Hfp. apply ok_true_iff. apply eval_binop_ok. assumption. Qed.
 
 (* a product whose decimal exponent would leave the limit is an error VALUE *)
 Lemma multiply_out_of_range : forall fp x y n1 n2, to_number x = Ok n1 -> to_number y = Ok n2 ->
@@ -896,9 +908,10 @@ Section Eval.
 Variable wclass : N -> N.
 Variable regex_submatch : text -> text -> option (list text).
 Variable ext_call : N -> list value -> res.
-Variable frac_pow : dec -> dec -> dec.
+Variable frac_pow : dec -> dec -> dec -> pclass + dec.
 Variable lookup_function : text -> option fname.
 Hypothesis ext_ok : forall id args, ok true (ext_call id args).
+Hypothesis frac_ok : frac_pow_well_behaved frac_pow.
 
 Notation eval := (eval wclass regex_submatch ext_call frac_pow lookup_function).
 
@@ -918,7 +931,7 @@ Proof.
     + unfold call_function. apply call_ok; [assumption|lia].
     + apply bind_ok; [assumption|]. intros pv. apply IHr.
   - apply bind_ok; [assumption|]. intros v. apply ok_weaken. apply eval_neg_ok.
-  - apply bind_ok; [assumption|]. intros av. apply bind_ok; [assumption|]. intros bv. apply eval_binop_ok.
+  - apply bind_ok; [assumption|]. intros av. apply bind_ok; [assumption|]. intros bv. apply eval_binop_ok. exact frac_ok.
 Qed.
 
 End Eval.
@@ -1285,11 +1298,11 @@ Proof. intros Hext f args. apply (proj2 (proj1 (ok_true_iff _) (call_function_ok
 Lemma call_function_fuel : ext_well_behaved -> forall f args, call_function f args <> NoFuel.
 Proof. intros Hext f args. apply (proj1 (proj1 (ok_true_iff _) (call_function_ok Hext f args))). Qed.
 
-Lemma eval_statement : forall frac_pow lookup_function, ext_well_behaved ->
+Lemma eval_statement : forall frac_pow lookup_function, ext_well_behaved -> frac_pow_well_behaved frac_pow ->
   forall ctx e, eval wclass regex_submatch ext_call frac_pow lookup_function ctx e <> NoFuel /\
                 forall c, eval wclass regex_submatch ext_call frac_pow lookup_function ctx e = Panic c -> c = PExponent.
 Proof.
-  intros fp lf Hext ctx e. apply ok_true_iff. apply eval_ok. intros id a. apply ok_true_iff. apply Hext.
+  intros fp lf Hext Hfp ctx e. apply ok_true_iff. apply eval_ok; [|exact Hfp]. intros id a. apply ok_true_iff. apply Hext.
 Qed.
 
 (* a rejected argument count is an error value, for every wrapper-checked registration *)
@@ -1304,6 +1317,9 @@ Proof. apply work_bound. Qed.
 End Statements.
 
 (* the hypothesis of the two evaluator statements is satisfiable *)
+Example frac_pow_hypothesis_satisfiable : exists fp, frac_pow_well_behaved fp.
+Proof. exists (fun _ _ _ => inr (Dec 0 0)). intros x y w c H. discriminate. Qed.
+
 Example ext_hypothesis_satisfiable : exists ext : N -> list value -> res, ext_well_behaved ext.
 Proof. exists (fun _ _ => Ret VNil). intros id args. split; [discriminate|intros; discriminate]. Qed.
 
